@@ -124,6 +124,32 @@ def readd_history():
     return specs, evos
 
 
+def rename_model_history():
+    """a model renamed (its table kept) in the first version, ordinary changes of another model afterwards: the
+    rename stays in the app's history for ever, and an up-to-date database must still need nothing"""
+    def fld(name, t, **attrs):
+        return {'name': name, 'type': t, 'attrs': attrs, 'related': None}
+
+    def mdl(name, fields):
+        return {'name': name, 'table': 'vapp_%s' % name.lower(), 'unique_together': [], 'index_together': [],
+                'indexes': [], 'constraints': [], 'fields': [fld('id', 'AutoField', primary_key=True)] + fields}
+    spec0 = {'apps': [{'id': 'vapp', 'models': [mdl('Alpha', [fld('a', 'IntegerField')]),
+                                                 mdl('Beta', [fld('b', 'CharField', max_length=10)])]}]}
+    evos = [[{'t': 'RenameModel', 'old': 'Alpha', 'new': 'Gamma', 'db_table': 'vapp_alpha'}],
+            [{'t': 'AddField', 'model': 'Beta', 'field': 'y', 'ftype': 'IntegerField', 'initial': None,
+              'attrs': [['null', 'true']]}],
+            [{'t': 'ChangeField', 'model': 'Beta', 'field': 'b', 'ftype': None, 'initial': None,
+              'attrs': [['max_length', '20']]}]]
+    sig = dbrig.sig_from_models(dbrig.build_models(spec0))
+    specs = [spec0]
+    for e in evos:
+        sig = sigs.real_simulate(sig, 'vapp', [sigs.real_mutation(m) for m in e])[1]
+        sp = dbrig.spec_from_sig(sig)
+        sp['apps'] = [a for a in sp['apps'] if a['id'] == 'vapp']
+        specs.append(sp)
+    return specs, evos
+
+
 def new_model_history():
     """a model that first appears in a later version (with a foreign key and an indexed column: its indexes are
     deferred SQL of the model creation), next to ordinary evolutions of an older model"""
@@ -215,7 +241,7 @@ def muts_of(e):
     return [m for _, _, ms in parts(0, e) for m in ms]
 
 
-SCRIPTED = [scripted_history, two_app_history, signature_only_history, new_model_history, readd_history]
+SCRIPTED = [scripted_history, two_app_history, signature_only_history, new_model_history, readd_history, rename_model_history]
 
 
 def install(specs, evos, version):
